@@ -75,6 +75,7 @@ func init() {
 		"mP": "/ip4/2.3.4.5/udp/4001/quic-v1",
 		"mV": "/ip4/192.168.7.7/tcp/4001",
 		"mR": "/ip4/6.7.8.9/tcp/4001/p2p/" + vfHPRelayID + "/p2p-circuit/p2p/" + vfHPRemoteID,
+		"mS": "/ip4/10.9.8.7/udp/4001/quic-v1/p2p/" + vfHPRelayID + "/p2p-circuit",
 		"oP": "/ip4/7.7.7.7/tcp/4001",
 		"oR": "/ip4/8.8.4.4/udp/4001/quic-v1/p2p/" + vfHPRelayID + "/p2p-circuit",
 	} {
@@ -97,7 +98,7 @@ func vfHPTokenOf(a ma.Multiaddr) string {
 // relay-ness as the harness sees it: by the token table, else textually (independent of isRelayAddress)
 func vfHPIsRelayTok(tok string) bool {
 	if len(tok) == 2 {
-		return tok[1] == 'R'
+		return tok[1] == 'R' || tok[1] == 'S'
 	}
 	return strings.Contains(tok, "/p2p-circuit")
 }
@@ -756,8 +757,10 @@ func vfHPDelimited(m *pb.HolePunch) []byte {
 	return append(binary.AppendUvarint(nil, uint64(len(b))), b...)
 }
 
-func vfHPConnectMsg(toks []string) []byte {
+func vfHPConnectMsg(toks []string, rnd *rand.Rand) []byte {
 	m := &pb.HolePunch{Type: pb.HolePunch_CONNECT.Enum()}
+	toks = append([]string{}, toks...)
+	rnd.Shuffle(len(toks), func(i, j int) { toks[i], toks[j] = toks[j], toks[i] })
 	for _, t := range toks {
 		if t == "mG" {
 			m.ObsAddrs = append(m.ObsAddrs, vfHPJunk)
@@ -1021,7 +1024,7 @@ func (r *vfHPRun) startIncoming(kind, dir, scope string) bool {
 func (r *vfHPRun) readAnswer(k string, a []string) {
 	switch k {
 	case "connect":
-		r.w.answer(vfHPAns{out: "data", data: vfHPConnectMsg(a)})
+		r.w.answer(vfHPAns{out: "data", data: vfHPConnectMsg(a, r.rnd)})
 	case "sync":
 		r.w.answer(vfHPAns{out: "data", data: vfHPSyncMsg()})
 	case "big":
@@ -1149,7 +1152,7 @@ func (r *vfHPRun) freeRun() {
 		case g.kind == "read" && g.side == "R" && cs != nil && cs.nread > 0:
 			r.readAnswer("sync", nil)
 		case g.kind == "read":
-			r.readAnswer("connect", []string{"mG", "mP", "mR", "mV"})
+			r.readAnswer("connect", []string{"mG", "mP", "mR", "mS", "mV"})
 		}
 	}
 }
@@ -1280,8 +1283,11 @@ func vfHPWalk(t *testing.T, res *vfh.Result, wk vfh.Walk, seed int64, traceFile 
 		if svc.holePuncher == nil || w.handler == nil {
 			t.Fatal("vf: the service did not come up")
 		}
-		steps := 0
+		steps, skipTo, resync := 0, 0, 0
 		for i, st := range wk.Steps {
+			if i < skipTo {
+				continue
+			}
 			w.step = i
 			w.prefix = append(w.prefix, map[string]any{"name": st.Op.Name(), "arg": st.Op["arg"]})
 			var want vfHPState
@@ -1311,7 +1317,35 @@ func vfHPWalk(t *testing.T, res *vfh.Result, wk vfh.Walk, seed int64, traceFile 
 				stats["stream-over-direct"]++
 			}
 			if r.div {
-				break
+				// the code left the model: let it finish against a cooperative environment (the monitors keep
+				// judging), then pick the walk up again where the model is idle in the state the code is in
+				stats["free-runs"]++
+				r.freeRun()
+				w.mu.Lock()
+				w.side, w.rstream, w.trev = "", nil, nil
+				w.mu.Unlock()
+				r.div = false
+				got := w.project(r.svc, r.closed)
+				next := -1
+				for j := i + 1; j < len(wk.Steps) && resync < 3 && got.Pc == "idle"; j++ {
+					var s vfHPState
+					if json.Unmarshal(wk.Steps[j].State, &s) != nil {
+						break
+					}
+					sort.Strings(s.Conns)
+					sort.Strings(s.Ps)
+					if vfh.Canon(s) == vfh.Canon(got) {
+						next = j
+						break
+					}
+				}
+				if next < 0 {
+					break
+				}
+				resync++
+				stats["resyncs"]++
+				skipTo = next + 1
+				continue
 			}
 			if want.Pc == "idle" {
 				w.mu.Lock()
@@ -1325,10 +1359,6 @@ func vfHPWalk(t *testing.T, res *vfh.Result, wk vfh.Walk, seed int64, traceFile 
 				}
 				w.mu.Unlock()
 			}
-		}
-		if r.div {
-			stats["free-runs"]++
-			r.freeRun()
 		}
 		// wind down: nothing of the service may stay behind in the bubble
 		r.freeRun()
